@@ -153,7 +153,7 @@ Lemma san_sel_frag tm sc ip c o fd sub result scr :
   let scr2 := set_frag sc ip c scr1 added in
   match kind_of sc o with
   | KIface => (add_to_result result (sanitize_iface sc child' c o fd), scr2)
-  | KUnion => (add_to_result result (sanitize_union child' c o fd), scr2)
+  | KUnion => (add_to_result result (if other_abstract sc c o then sanitize_iface sc child' c o fd else sanitize_union child' c o fd), scr2)
   | KOther => (add_to_result result child', scr2)
   end.
 Proof.
